@@ -38,9 +38,106 @@ def passthrough(lo, hi, w=64, prefix='e'):
     return ['%s%d' % (prefix, i) if lo <= i <= hi else '0' for i in range(w)]
 
 
+def ext_cursor_rule(f, rep, rid):
+    """Parser side of the 8-byte padding of header extensions: with header_length a multiple of 8 (what the
+    specification requires of it), the cursor of the extension walk is a multiple of 8 wherever an extension
+    header or its payload is sliced out of the buffer - i.e. every advance of the cursor is the padded length."""
+    from ..align import AlignInt
+    from ..absint import short_vn
+    from . import c14
+    rep.rule(rid, 'from_buf: every slice the extension walk takes out of the header buffer starts at a multiple of 8, given that '
+                  'header_length is one (each extension is skipped with its padding)')
+    rep.assume('header_length of a specification-valid image is a multiple of 8')
+    raw = c14.adt_fields(f, c14.RAW)
+    ai = AlignInt(f)
+    hls = []
+
+    def after_deser(ai_, st, frame, b, bi, t, res):
+        a = t.get('a') or []
+        if len(a) < 2 or f.types[a[1]].get('p') != c14.RAW or b.path != c14.FROM_BUF or res[0] != 'opt':
+            return
+        idx, tid = raw['cluster_bits']
+        ai_.refine(st, ai_.project(st, res[2], (('f', idx),), tid), 9, 21)
+        i2, t2 = raw['header_length']
+        hl = ai_.project(st, res[2], (('f', i2),), t2)
+        st.le.add(('al', hl, ('c', 3)))
+        hls.append(hl)
+    ai.after_call['Options::deserialize'] = after_deser
+    seen = {}
+
+    def idx(ai_, st, frame, b, bi, t, args):
+        if b.path == c14.FROM_BUF and frame[0] is None and len(args) > 1 and args[1][0] == 'agg' and 'Range' in str(args[1][1]) and hls:
+            s_ = args[1][3][0]
+            from ..absint import mentions
+            cursor = mentions(s_, lambda v: v[0] == 'u' and isinstance(v[1], tuple) and v[1] and v[1][0] == 'phi') or s_ in hls
+            if cursor:
+                seen[bi] = (s_, ai_.is_mult(st, s_, ('c', 3)))
+        return None
+    ai.hooks['Index::index'] = idx
+    ai.analyze(c14.FROM_BUF)
+    b = f.body(c14.FROM_BUF)
+    rep.floor('slices taken by the extension walk', len(seen), 2)
+    for bi, (s_, ok) in sorted(seen.items()):
+        rep.ob(rid, 'slice at %s starts at a multiple of 8' % b.where(bi), ok, short_vn(s_)[:100])
+        if not ok:
+            rep.violation(rid, '%s:from_buf:%s' % (rid, 'cursor'), b.where(bi),
+                          'from_buf slices the header buffer at %s, which is not provably a multiple of 8: an extension whose length is '
+                          'not a multiple of 8 is not skipped with its padding, the next extension header is read from inside the '
+                          'padding and a specification-valid image fails to open (or is misparsed)' % short_vn(s_)[:100])
+
+
+def ext_length_rule(f, rep, rid):
+    """Serialiser side: the length field of an extension header is the length of the payload exactly as
+    serialize_data() returned it (the padding is not part of the recorded length)."""
+    from ..absint import AbsInt, short_vn
+    rep.rule(rid, 'serialize_extensions: the length field of every extension header is len() of the unmodified serialize_data() payload')
+    path = 'meta::header::Qcow2Header::serialize_extensions'
+    b = f.body(path)
+    if b is None:
+        raise AnalysisError('serialize_extensions not found')
+    hn = [a for a in f.adts if a.endswith('Qcow2HeaderExtensionHeader')]
+    if len(hn) != 1:
+        raise AnalysisError('Qcow2HeaderExtensionHeader not found')
+    fl = [x['n'] for x in f.adts[hn[0]]['variants'][0]['fields']]
+    li = fl.index('length')
+    ai = AbsInt(f)
+    pays = []
+    made = {}
+    ai.after_call['::serialize_data'] = lambda ai_, st, frame, b_, bi, t, res: pays.append(res[2] if res[0] == 'opt' else res) if frame[0] is None else None
+
+    def on_stmt(ai_, st, frame, b_, bi, si, s_, v):
+        if frame[0] is None and v[0] == 'agg' and v[1] == hn[0]:
+            made[(bi, si)] = v[3][li]
+    ai.stmt_hook = on_stmt
+    ai.analyze(path)
+
+    def peel(v):
+        k = 0
+        while isinstance(v, tuple) and v and v[0] in ('wrap', 'cast') and k < 8:
+            v = v[1]
+            k += 1
+        return v
+    n = 0
+    for (bi, si), lv in sorted(made.items()):
+        lv = peel(lv)
+        if lv == ('c', 0):
+            continue            # the end marker
+        n += 1
+        ok = lv[0] == 'len' and (lv[1] in pays or (lv[1][0] == 'vslice' and lv[1][1] in pays))
+        rep.ob(rid, 'extension header built at %s' % b.where(bi), ok, 'length = %s' % short_vn(lv)[:100])
+        if not ok:
+            rep.violation(rid, '%s:serialize_extensions' % rid, b.where(bi),
+                          'serialize_extensions records %s as the length of an extension, not the length of the payload that '
+                          'serialize_data() produced: after parse -> serialise -> parse the extension has changed (padding becomes '
+                          'part of the data)' % short_vn(lv)[:100])
+    rep.floor('extension headers built by the serialiser', n, 1)
+
+
 def run(ctx, rep):
     f = ctx.lib
     from . import span
+    ext_cursor_rule(f, rep, 'C15.9')
+    ext_length_rule(f, rep, 'C15.10')
     rep.rule('C15.7', 'the host-cluster span of a compressed extent is exactly the clusters it touches (allocation(), and releases computed in place)')
     span.allocation_rule(f, rep, 'C15.7')
     P = Program(f)
